@@ -191,6 +191,34 @@ theorem sound_finish_deleteLoop {C : Bid → Stat → Option AuditInfo} {w : Wor
       simp only [List.mem_filter, List.any_eq_true, beq_iff_eq] at hp
       exact hp.2
 
+theorem refs_kept_finish_deleteLoop (w : World) (vs : List Bid) (p : Bid × Bid) (hp : p ∈ w.idx.refs)
+    (hrow : ∃ r ∈ (finish (deleteLoop w false vs).1 (deleteLoop w false vs).2.1).idx.rows, r.bid = p.1) :
+    p ∈ (finish (deleteLoop w false vs).1 (deleteLoop w false vs).2.1).idx.refs := by
+  obtain ⟨S, _, h2, _⟩ := deleteLoop_idx vs w false
+  unfold finish at hrow ⊢
+  cases hr : (deleteLoop w false vs).2.1 with
+  | false =>
+    simp only [hr, Bool.false_eq_true, if_false] at hrow ⊢
+    rw [h2]; exact hp
+  | true =>
+    simp only [hr, if_true, pruneRefs] at hrow ⊢
+    simp only [List.mem_filter, List.any_eq_true, beq_iff_eq]
+    rw [h2]
+    exact ⟨hp, hrow⟩
+
+theorem refs_kept_cleanCmd (rep dry : Bool) (es : List Expr) (w : World) (p : Bid × Bid) (hp : p ∈ w.idx.refs)
+    (hrow : ∃ r ∈ (cleanCmd rep true dry es w).1.idx.rows, r.bid = p.1) : p ∈ (cleanCmd rep true dry es w).1.idx.refs := by
+  rw [cleanCmd_noscan] at hrow ⊢
+  cases hq : query es w.idx.table with
+  | error x => simpa [hq] using hp
+  | ok retained =>
+    simp only [hq] at hrow ⊢
+    cases dry with
+    | true => simpa using hp
+    | false =>
+      simp only [Bool.false_eq_true, if_false] at hrow ⊢
+      exact refs_kept_finish_deleteLoop w _ p hp hrow
+
 theorem sound_cleanCmd {C : Bid → Stat → Option AuditInfo} {w : World} (h : Sound C w.idx) (rep dry : Bool) (es : List Expr) :
     Sound C (cleanCmd rep true dry es w).1.idx := by
   rw [cleanCmd_noscan]
